@@ -52,6 +52,9 @@ type Profile struct {
 	// UpdateAnywhere lets UpdateContext follow any chain step (only for linear chains: the statement of C05
 	// restricts it to loggers just produced by With() because of sharing between value copies)
 	UpdateAnywhere bool
+	// CustomIface lets RandomSettings install a custom InterfaceMarshalFunc (not for checks that compare the two
+	// encodings or model where a nil travels through the Interface path)
+	CustomIface bool
 }
 
 // G is the generation state for one program.
@@ -669,7 +672,7 @@ func (g *G) fieldsValue(depth int, stack bool) (val interface{}, in *Intent, tag
 				if g.P.Modelled {
 					x = Strn{g.V.String()}
 				} else {
-					x = FailJSON{}
+					x = FailJSON{g.V.String()}
 				}
 			}
 			return x, &Intent{K: IIface, V: x}, "interface"
